@@ -1,8 +1,16 @@
 import BeyondVerif.Lemmas.Heap
 /-!
-Kernel-checked counter-witnesses for the clauses of C15 that the current code falsifies. The model is the
-one the correspondence run shows to agree with /repo; every witness is replayed on the real API by the
-oracle of harness/props/C15.py (families in known_findings.d/C15.json).
+Kernel-checked witnesses for C15 on the heap model (the model is the one the correspondence run shows to agree
+with /repo).
+
+History. Until /repo commits 0cea58e, 27f7ad7 and 2927581 this file held four counter-witnesses that are no
+longer true of the code and have been restated as their positive counterparts below (the defects are kept
+alive as oracle families in harness/props/C15.py, so their return is reported as a VIOLATION):
+  * `copy_shares_maneuver_objects_and_nested_containers` — the nested-container half is fixed (`copy()` deep-copies
+    free metadata); the maneuver-object half is still true and stays an open finding;
+  * `as_orbit_shares_cov` — `as_orbit` handed the receiver's covariance to the new Orbit; now separate;
+  * `cylindrical_theta_refused` — now `access "cylindrical" "theta" = .slot 1` (Props/C15.lean, `access_name_index`);
+  * `pickle_gives_unusable_object`, `pickle_then_copy_raises` — the unpickled object now works and keeps its covariance.
 -/
 namespace BeyondVerif.C15W
 open BeyondVerif.Heap
@@ -12,22 +20,22 @@ open BeyondVerif.Heap
 def h0 : Heap :=
   [ .buf (.init 0), .man 0, .list [.addr 1], .list [.tok 1], .dict [("k", .addr 3)],
     .dict [("maneuvers", .addr 2), ("nested", .addr 4), ("date", .tok 100), ("form", .form "cartesian"),
-           ("frame", .frame (.reg "EME2000"))],
-    .sv false false 0 5 ]
+           ("frame", .frame (.reg "EME2000" 0))],
+    .sv false 0 5 ]
 
-/-- `copy()` is one level deep (finding C15-copy-shallow): the copy (cell 11) gets a new maneuver list (7) and a
-new `nested` dict (8), but the list still holds the receiver's maneuver *object* 1 and the dict still holds
-the receiver's inner list 3 — changing either through one object shows in the other -/
-theorem copy_shares_maneuver_objects_and_nested_containers :
-    copySV h0 6 = (h0 ++ [ .list [.addr 1], .dict [("k", .addr 3)], .buf (.init 0),
+/-- OPEN finding C15-copy-shares-maneuver-objects (kept on purpose by the library): the copy (cell 12) gets a new
+maneuver list (7) that still holds the receiver's maneuver *object* 1. The `nested` dict is now copied in depth:
+new dict 8 holding a new inner list 9 — nothing of it is shared any more. -/
+theorem copy_shares_maneuver_objects :
+    copySV h0 6 = (h0 ++ [ .list [.addr 1], .dict [("k", .addr 9)], .list [.tok 1], .buf (.init 0),
                            .dict [("maneuvers", .addr 7), ("nested", .addr 8), ("date", .tok 100), ("form", .form "cartesian"),
-                                  ("frame", .frame (.reg "EME2000"))],
-                           .sv false false 9 10 ], .ok 11) := by
+                                  ("frame", .frame (.reg "EME2000" 0))],
+                           .sv false 10 11 ], .ok 12) := by
   decide +kernel
 
 /-- state vector (cell 2) in EME2000 without metadata -/
 def h1 : Heap :=
-  [ .buf (.init 0), .dict [("date", .tok 100), ("form", .form "cartesian"), ("frame", .frame (.reg "EME2000"))], .sv false false 0 1 ]
+  [ .buf (.init 0), .dict [("date", .tok 100), ("form", .form "cartesian"), ("frame", .frame (.reg "EME2000" 0))], .sv false 0 1 ]
 
 /-- frame of the state vector at `a` and frame of the covariance its `_data` refers to -/
 def frames (h : Heap) (a : Nat) : Option (Fr × Fr) :=
@@ -36,62 +44,54 @@ def frames (h : Heap) (a : Nat) : Option (Fr × Fr) :=
     match lookup "cov" s.items with
     | some (.addr c) =>
       match h[c]? with
-      | some (.cov _ _ fr _ _) => some (s.frame, fr)
+      | some (.cov _ fr _ _) => some (s.frame, fr)
       | _ => none
     | _ => none
   | none => none
 
-/-- `sv.cov = Cov(…)`, `o = sv.as_orbit(p)`, `o.frame = "ITRF"`, then look at `sv` -/
-def asOrbitThenFrame : Option (Fr × Fr) :=
+/-- `sv.cov = Cov(…)`, `o = sv.as_orbit(p)`, `o.frame = "ITRF"`, then the frames of `sv` and of `o` -/
+def asOrbitThenFrame : Option ((Fr × Fr) × (Fr × Fr)) :=
   match setCov h1 2 1000 with
   | (h, .ok ()) =>
     let (h, p) := alloc h (.prop 0)
     match asOrbit h 2 p with
     | (h, .ok n) =>
       match setFrame h n "ITRF" with
-      | (h, .ok ()) => frames h 2
+      | (h, .ok ()) =>
+        match frames h 2, frames h n with
+        | some x, some y => some (x, y)
+        | _, _ => none
       | _ => none
     | _ => none
   | _ => none
 
-/-- `as_orbit` shares the covariance object (finding C15-as_orbit-shares): changing the frame of the new Orbit
-converts the covariance of the *receiver*, which stays in EME2000 with a covariance now labelled ITRF -/
-theorem as_orbit_shares_cov : asOrbitThenFrame = some (.reg "EME2000", .reg "ITRF") := by
+/-- fixed (27f7ad7): changing the frame of the Orbit `as_orbit` returned converts *its* covariance; the receiver
+keeps state and covariance in EME2000 (before the fix: receiver in EME2000 with a covariance labelled ITRF) -/
+theorem as_orbit_cov_separate :
+    asOrbitThenFrame = some ((.reg "EME2000" 0, .reg "EME2000" 0), (.reg "ITRF" 0, .reg "ITRF" 0)) := by
   decide +kernel
 
-/-- in cylindrical form the element names `theta`, `theta_dot` (slots 1 and 4) cannot be used: `Form.alt`
-rewrites them to `θ`, `θ_dot`, which are names of the spherical form only (finding C15-cylindrical-theta) -/
-theorem cylindrical_theta_refused :
-    (namesOf "cylindrical")[1]? = some "theta" ∧ access "cylindrical" "theta" = .foreign ∧
-    (namesOf "cylindrical")[4]? = some "theta_dot" ∧ access "cylindrical" "theta_dot" = .foreign ∧
-    access "cylindrical" "θ" = .foreign := by
-  decide +kernel
-
-/-- what the operations of an unpickled object return -/
-def afterPickle : Option (Except Err Nat × Except Err Unit × Except Err Unit × Except Err Nat × Option Cell) :=
+/-- what the operations of an unpickled object return, and the covariance it carries -/
+def afterPickle : Option (Bool × Bool × Bool × Bool × Option Cell) :=
   match setCov h1 2 1000 with
   | (h, .ok ()) =>
     match pickle h 2 with
     | (h, .ok n) =>
       match getSV h n with
       | some s =>
-        some ((copySV h n).2, (setForm h n "keplerian").2, (setFrame h n "ITRF").2,
-              (let (h, p) := alloc h (.prop 0); (asOrbit h n p).2),
+        let isOk {α : Type} (r : Except Err α) : Bool := match r with | .ok _ => true | .error _ => false
+        some (isOk (copySV h n).2, isOk (setForm h n "keplerian").2, isOk (setFrame h n "ITRF").2,
+              (let (h, p) := alloc h (.prop 0); isOk (asOrbit h n p).2),
               (match lookup "cov" s.items with | some (.addr c) => h[c]? | _ => none))
       | none => none
     | _ => none
   | _ => none
 
-/-- a pickle round trip does not give back a working object (findings C15-pickle-base-none, C15-pickle-cov):
-the array owns its memory, so `self.base` is `None` and `copy`, `as_orbit`, the form and frame setters raise;
-the covariance comes back without its `_data` (frame, parent state) -/
-theorem pickle_gives_unusable_object :
-    afterPickle = some (.error .attr, .error .attr, .error .attr, .error .typeErr, some (.cov false (.init 1000) (.reg "EME2000") 0 (.reg "EME2000"))) := by
-  decide +kernel
-
-/-- the same without a covariance: `copy()` raises TypeError -/
-theorem pickle_then_copy_raises :
-    (match pickle h1 2 with | (h, .ok n) => (copySV h n).2 | _ => .ok 0) = .error .typeErr := by
+/-- fixed (27f7ad7, 2927581): the unpickled object can be copied, converted and turned into an Orbit, and its
+covariance keeps frame and parent state (the Frame objects are clones — pickle copies them by value — here
+with identity 10; the private state is cell 12) -/
+theorem pickle_gives_working_object :
+    afterPickle = some (true, true, true, true, some (.cov (.init 1000) (.reg "EME2000" 10) 12 (.reg "EME2000" 10))) := by
   decide +kernel
 
 end BeyondVerif.C15W
